@@ -11,6 +11,7 @@ import SvgVerif.Model.Viewbox
 import SvgVerif.Model.Seg
 import SvgVerif.Model.ArcParam
 import SvgVerif.Model.BBox
+import SvgVerif.Model.Shapes
 open Svg Svg.Wire
 
 def fmtMat (m : Mat Float) : String :=
@@ -191,6 +192,22 @@ def step (line : String) : String :=
           | some b => "OK " ++ " ".intercalate [hexOfFloat b.xmin, hexOfFloat b.ymin, hexOfFloat b.xmax, hexOfFloat b.ymax]
           | none => "OK none")
        | none => "bad-op")
+  | ["c06.rect", v, rx, ry] =>
+      (match fl v with
+       | [x, y, w, h] =>
+         let (a, b) := rectRadii (optF rx) (optF ry) w h
+         "OK " ++ " | ".intercalate ((rectSegs x y w h a b (1.5707963267948966 : Float)).map fmtSeg)
+       | _ => "bad-op")
+  | ["c06.round", v] =>
+      (match fl v with
+       | [cx, cy, rx, ry] => "OK " ++ " | ".intercalate ((roundSegs cx cy rx ry (1.5707963267948966 : Float)).map fmtSeg)
+       | _ => "bad-op")
+  | ["c06.poly", closed, v] =>
+      let xs := fl v
+      let rec pairs : List Float → List (Pt Float)
+        | a :: b :: r => ⟨a, b⟩ :: pairs r
+        | _ => []
+      "OK " ++ " | ".intercalate ((polySegs (pairs xs) (closed = "1")).map fmtSeg)
   | ["seg.reverse", sg] =>
       (match segOfStr sg with
        | some s => (match s.reverse with | some r => "OK " ++ fmtSeg r | none => "OK none")
